@@ -102,6 +102,9 @@ Record ep := mkEp {
   rx_map : list (N * bytes);        (* _rx_map, insertion order *)
   (* observations *)
   sent : list frame;                (* every frame given to send_message *)
+  handled : list frame;             (* every frame given to recv_message, in order (ghost) *)
+  t_send : N;                       (* clock value at the last send_message (ghost) *)
+  t_recv : N;                       (* clock value at the last recv_raw (ghost) *)
   wire : bytes;                     (* every octet accepted by the socket *)
   trace : list event
 }.
@@ -111,14 +114,14 @@ Record ep := mkEp {
    state; in_conn; in_sess; in_term; conhead_this; conhead_peer; sessinit_this; sessinit_peer;
    rx_buf; msg_tx; keepalive_time; idle_time; ka_due; idle_due; seg_size;
    next_id; pend_start; pend_ack; tx_map; tx_tmp; tx_len; pq_set; n_pq; rx_tmp; rx_map;
-   sent; wire; trace>.
+   sent; handled; t_send; t_recv; wire; trace>.
 
 Definition init (c : cfg) : ep :=
   mkEp c 0 false true [] false false 0 0
        ST_CONNECTING false false false None None None None
        [] [] 0 0 None None 0
        1 [] [] [] None 0 false 0 None []
-       [] [] [].   (* the 'connecting' state is set before the signal is bound: no emission *)
+       [] [] 0 0 [] [].   (* the 'connecting' state is set before the signal is bound: no emission *)
 
 Inductive op :=
 | OStart
@@ -156,7 +159,7 @@ Definition send_ready (s : ep) : ep :=
 (** [Messenger.send_message] *)
 Definition send_frame (f : frame) (s : ep) : ep :=
   idle_reset (ka_reset (send_ready
-    (s <| msg_tx := msg_tx s ++ encode_frame f |> <| sent := sent s ++ [f] |>))).
+    (s <| msg_tx := msg_tx s ++ encode_frame f |> <| sent := sent s ++ [f] |> <| t_send := now s |>))).
 
 Definition send_msg (m : msg) (s : ep) : ep := send_frame (FMsg m) s.
 
@@ -436,7 +439,7 @@ Fixpoint recv_loop (fuel : nat) (s : ep) : res :=
       match parse_frame (in_conn s) (rx_buf s) with
       | None => ok s
       | Some (fr, rest) =>
-        match recv_frame fr (s <| rx_buf := rest |>) with
+        match recv_frame fr (s <| rx_buf := rest |> <| handled := handled s ++ [fr] |>) with
         | (s, None) => recv_loop f s
         | (s, Some k) => raise k s
         end
@@ -444,7 +447,7 @@ Fixpoint recv_loop (fuel : nat) (s : ep) : res :=
   end.
 
 Definition recv_raw (data : bytes) (s : ep) : res :=
-  let s := idle_reset s in
+  let s := idle_reset (s <| t_recv := now s |>) in
   let s := s <| rx_buf := rx_buf s ++ data |> in
   recv_loop (S (length (rx_buf s))) s.
 
